@@ -110,6 +110,12 @@ def step (line : String) : String :=
       let Q := G2.add (g2of c) (g2of d)
       s!"eq={b2s (P == Q)} enc={b2s (marshalG2 P == marshalG2 Q)}"
     | _, _, _, _ => "bad-op"
+  -- GT elements are pairing values e(aG1,bG2) = gT^(ab): decided in the dlog representation
+  | ["gteq", a, b, c, d] => match a.toNat?, b.toNat?, c.toNat?, d.toNat? with
+    | some a, some b, some c, some d =>
+      let e := (sc a * sc b) % r == (sc c * sc d) % r
+      s!"eq={b2s e} enc={b2s e}"
+    | _, _, _, _ => "bad-op"
   | ["g1strm", ks, ts] => match ks.toNat?, ofHex ts with
     | some k, some tail =>
       let enc := marshalG1 (g1of k)
